@@ -1,0 +1,14 @@
+//go:build verif
+
+package yang
+
+// VerifHook, when set, is called at the instrumented points (lock sections of
+// the module set's caches and dictionaries).  It exists for the model-based
+// verification harness only and is compiled in with the build tag verif.
+var VerifHook func(point string, args ...interface{})
+
+func verifHook(point string, args ...interface{}) {
+	if h := VerifHook; h != nil {
+		h(point, args...)
+	}
+}
